@@ -190,13 +190,17 @@ Run(s) ==
   THEN Emit(Ev([s EXCEPT !.st = "WLA"], "request?"), [Msg("A", 0) EXCEPT !.hb = s.cfg.hbCfg, !.enc = s.cfg.encCfg])
   ELSE [s EXCEPT !.st = "WL"]
 
+\* Session.LogonRequest() on an initiator that logged out: a new Logon, waiting for the answer again
+Relogon(s) == Emit(Ev([s EXCEPT !.st = "WLA"], "request?"), [Msg("A", 0) EXCEPT !.hb = s.cfg.hbCfg, !.enc = s.cfg.encCfg])
+
 AppType == "V"   \* the harness sends a MarketDataRequest as its application message
 AppSend(s) == Emit(s, Msg(AppType, 0))
 
-LocalLogout(s) == Emit(Ev([s EXCEPT !.st = "WLO"], "request"), Msg("5", 0))
+LocalLogout(s) == Emit(Ev([s EXCEPT !.st = "WLO", !.timers = FALSE], "request"), Msg("5", 0))
 
+\* (a second Stop does not postpone the first one's deadline)
 Stop(s) == IF s.cfg.closeMs = 0 THEN [LocalLogout(s) EXCEPT !.ctxDone = TRUE, !.ctxAt = s.now]
-           ELSE [LocalLogout(s) EXCEPT !.stopAt = s.now + s.cfg.closeMs]
+           ELSE [LocalLogout(s) EXCEPT !.stopAt = IF s.stopAt >= 0 /\ s.stopAt < s.now + s.cfg.closeMs THEN s.stopAt ELSE s.now + s.cfg.closeMs]
 
 
 \* ---- timers (property-level windows) ---------------------------------------
